@@ -463,7 +463,7 @@ func (e *Env) binary(x *EBin) tv {
 			eq = u.valEq(l.v, r.v)
 		} else {
 			a, b := e.unify(l, r)
-			if a.Sort == SSlice && (b.S == NilSlice.S || a.S == NilSlice.S) {
+			if (a.Sort == SSlice && (b.S == NilSlice.S || a.S == NilSlice.S)) || (a.Sort == SPtr && b.Sort == SPtr && (a.S == NilPtr.S || b.S == NilPtr.S)) {
 				eq = u.valEq(a, b)
 			} else {
 				eq = Eq(a, b)
@@ -665,7 +665,7 @@ func (e *Env) index(x *EIdx) tv {
 		if !isSlice {
 			e.fail("index on non-slice type %v", base.t)
 		}
-		p := mkptr(sarr(s), Add(soff(s), i))
+		p := mkptr(sarr(s), Eidx(soff(s), i))
 		if _, isStruct := u.structOf(st.Elem()); isStruct {
 			return tv{p, types.NewPointer(st.Elem())}
 		}
@@ -1349,7 +1349,7 @@ func (u *Unit) evalLoc(env *Env, x Expr, src string) []frameItem {
 		}
 		i := u.evalTerm(env, x.I)
 		st := types.Unalias(base.t).Underlying().(*types.Slice)
-		p := mkptr(sarr(s), Add(soff(s), i))
+		p := mkptr(sarr(s), Eidx(soff(s), i))
 		var out []frameItem
 		u.forEachElemMap(st.Elem(), sarr(s), func(name string, sort Sort) {
 			u.heapGet(env.st, name, sort)
